@@ -3,7 +3,7 @@
    every other byte alone, so each statement says: the first `size` bytes become the bytewise
    definition and nothing else changes.  No bound on size or on the number of operands. *)
 From Coq Require Import NArith ZArith List.
-From OFV Require Import GF2Poly Kernels KernelProofs KernelGF RS28GenProofs.
+From OFV Require Import GF2Poly Kernels KernelProofs KernelGF RS28GenProofs WordBytes.
 From OFV.gen Require Import GenTables.
 Local Open Scope N_scope.
 
@@ -52,7 +52,40 @@ Theorem addmul_gf16_compact : forall c dst src sz, (0 <= sz)%Z -> c < 16 ->
   upd_range (fun i x => N.lxor x (pack16 c (nth i src 0))) 0 (Z.to_nat sz) dst.
 Proof. exact addmul1_compact_gf16. Qed.
 
+(* ---- the word accesses (WordBytes.v) ----
+   Kernels.v applies the operation of a 64-/32-bit access to the bytes the access covers.  That this is what a
+   little-endian machine does is proved here instead of assumed: `le` is the value of a word whose bytes are given,
+   `bytes_of w` the w bytes a store writes, `pack_from 0` the C expression b0 | b1<<8 | ... | b7<<56 of the
+   multiply-accumulate loops.  The word-level kernels (every 8-/4-byte access = load, word operation, store; byte tails
+   unchanged) return exactly what the byte-level model returns, for every size and operand count. *)
+Theorem word_store_load_roundtrip : forall bs, Forall (fun b => b < 256) bs -> bytes_of (length bs) (le bs) = bs.
+Proof. exact bytes_of_le. Qed.
+Theorem word_xor_is_bytewise_xor : forall a b, length a = length b -> Forall (fun x => x < 256) a -> Forall (fun x => x < 256) b ->
+  N.lxor (le a) (le b) = le (map (fun p => N.lxor (fst p) (snd p)) (combine a b)).
+Proof. exact le_lxor. Qed.
+Theorem shift_or_packing_is_the_little_endian_word : forall l, Forall (fun b => b < 256) l -> pack_from 0 l = le l.
+Proof. exact pack_is_le. Qed.
+Theorem word_level_xor_one_into_one : forall dst from size, (size <= length dst)%nat -> (size <= length from)%nat -> bytes dst -> bytes from ->
+  wadd_to_symbol dst from size = add_to_symbol dst from size.
+Proof. exact wadd_to_symbol_eq. Qed.
+Theorem word_level_xor_many_into_one : forall dst from size, (size <= length dst)%nat -> bytes dst -> group_ok size from ->
+  wadd_from_multiple dst from size = add_from_multiple dst from size.
+Proof. exact wadd_from_multiple_eq. Qed.
+Theorem word_level_xor_one_into_many : forall tos from size, (size <= length from)%nat -> bytes from -> group_ok size tos ->
+  wadd_to_multiple tos from size = add_to_multiple tos from size.
+Proof. exact wadd_to_multiple_eq. Qed.
+Theorem word_level_addmul : forall mulc dst src sz, (forall x, mulc x < 256) -> (sz <= Z.of_nat (length src))%Z -> (sz <= Z.of_nat (length dst))%Z -> bytes dst ->
+  waddmul1 mulc dst src sz = addmul1 mulc dst src sz.
+Proof. exact waddmul1_eq. Qed.
+Theorem word_level_addmul_compact : forall optrow dst src sz, (forall x, optrow x < 256) -> (sz <= Z.of_nat (length src))%Z -> (sz <= Z.of_nat (length dst))%Z -> bytes dst ->
+  waddmul1_compact optrow dst src sz = addmul1_compact optrow dst src sz.
+Proof. exact waddmul1_compact_eq. Qed.
+
 Print Assumptions xor_many_into_one.
+Print Assumptions word_level_xor_many_into_one.
+Print Assumptions word_level_xor_one_into_many.
+Print Assumptions word_level_addmul.
+Print Assumptions word_level_addmul_compact.
 Print Assumptions xor_one_into_many.
 Print Assumptions addmul_gf256_generated.
 Print Assumptions addmul_gf16_compact.
